@@ -139,6 +139,18 @@ def compile_props(prop):
     return res
 
 
+def coqchk(prop):
+    """thorough tier: re-check props/<prop>.vo and everything it depends on with the independent checker"""
+    with BuildLock():
+        rc, out = run(['coqc'] + QFLAGS + ['props/%s.v' % prop], cwd=COQ, timeout=1200)
+        if rc != 0:
+            return {'ok': False, 'log': out[-2000:], 'cmd': ''}
+        cmd = ['coqchk', '-silent', '-o'] + QFLAGS + ['BacProps.' + prop]
+        rc, out = run(cmd, cwd=COQ, timeout=3000)
+    tail = out[out.find('CONTEXT SUMMARY'):] if 'CONTEXT SUMMARY' in out else out[-3000:]
+    return {'ok': rc == 0, 'log': tail[-4000:], 'cmd': 'cd coq && ' + ' '.join(cmd)}
+
+
 class Case:
     __slots__ = ('kind', 'coq', 'expected', 'key', 'nontrivial', 'desc')
 
